@@ -60,9 +60,12 @@ class MemBroker(BaseBroker):
         :return: The next invocation id from the queue, or None if the queue is empty.
         :rtype: InvocationId | None
         """
-        if self._queue:
+        # popleft() is atomic; a separate emptiness check lets a concurrent retriever
+        # empty the queue in between and turns "empty" into an IndexError.
+        try:
             return self._queue.popleft()
-        return None
+        except IndexError:
+            return None
 
     def count_invocations(self) -> int:
         """
